@@ -37,7 +37,7 @@ import (
 
 const c45PushRule = "part (a): one server; per case @@GLOBAL.dolt_replicate_to_remote='origin', dolt_replication_remote_url_template=file://<scratch>/<case>/{database} and dolt_async_replication (25 synchronous cases run first as their own sub-check; 5 asynchronous cases with at most 8 groups run only if those held) are set, then CREATE DATABASE (which creates the remote and installs the push hook); 10-16 drawn statement groups (the first two create a second branch and commit on it) on up to 3 branches: insert + dolt_commit, working-set-only insert, dolt_branch create / -D, dolt_merge of a side branch into main (fast-forward or merge commit), dolt_reset --hard HEAD~1, dolt_commit --amend, dolt_branch -f of a side branch to main / main~1 / a sibling branch (non-fast-forward moves and rewrites whose new head is not taller than the old one), dolt_tag, and `away` / `back` (the remote directory is renamed away / back, so pushes fail in between; every case has such a stretch starting at its middle step at the latest, and the step after `away` moves a ref). After every statement the harness collects what was reported: SQL error, SHOW WARNINGS, bytes written to the server's error output (cli.CliErr, where the hook writes 'error pushing: ...'), warning/error-level log entries. Oracle: if nothing was reported then for every ref the statement moved the remote directory (opened in process, no cache) has the same commit as the local database (absent when deleted) — with the remote away and nothing reported the case fails as silent divergence; a working-set-only statement never moves a remote ref, and any other statement changes a remote ref only to the commit the local database has for it (a statement that moves nothing locally may make the remote catch up on a ref whose earlier push failed); closure walk over the remote finds every address. Async mode: the same condition is awaited for at most 8 s per statement (expired wait = inconclusive, not a violation). Non-trivial: at least 2 branches moved, a non-fast-forward move or a deletion, and at least one statement that ran while the remote was away."
 
-const c45ReplicaRule = "part (b): one server; per case a primary database with branches main and b1 pushed to its file remote `origin` (explicit dolt_push), then @@GLOBAL.dolt_read_replica_remote='origin' with dolt_replicate_all_heads=1 or dolt_replicate_heads='main' / 'main,b1', then CALL dolt_clone(remote, replica). 10-16 drawn steps: primary commit+push (fast-forward), commit without push, reset --hard HEAD~1 + push --force, new branch + push, deletion of a remote branch that is not in the replicated list; replica reads (SELECT name, hash FROM dolt_branches) by an autocommit session and by a session inside an explicit transaction (begin / read / commit drawn as separate steps), and `settle` (two consecutive reads with no remote change in between; the second is checked). The harness records every head the remote has had per branch (read from the remote directory after every push). Oracle: every (branch, head) any replica read shows is a head the remote has had for that branch; at a settle point the replicated branches have exactly the remote's current heads, in all-heads mode the branch set equals the remote's (deleted branches are gone); for every head shown at a settle point the rows / schemas / log AS OF that head on the replica equal the record taken on the primary when the commit was made, the replica's working set of that branch has the head's rows; closure walk over the replica finds every address. Non-trivial: at least 2 branches replicated and a force-push or deletion happened before a checked settle point."
+const c45ReplicaRule = "part (b): one server; per case a primary database (table with TEXT and JSON columns; 2 of 3 inserted rows carry cells from the size classes inline / around the 2048-byte inline threshold / out of line / multi-chunk) with branches main and b1 pushed to its file remote `origin` (explicit dolt_push), then @@GLOBAL.dolt_read_replica_remote='origin' with dolt_replicate_all_heads=1 or dolt_replicate_heads='main' / 'main,b1', then CALL dolt_clone(remote, replica). 10-16 drawn steps: primary commit+push (fast-forward), commit without push, reset --hard HEAD~1 + push --force, new branch + push, deletion of a remote branch that is not in the replicated list; replica reads (SELECT name, hash FROM dolt_branches) by an autocommit session and by a session inside an explicit transaction (begin / read / commit drawn as separate steps), and `settle` (two consecutive reads with no remote change in between; the second is checked). The harness records every head the remote has had per branch (read from the remote directory after every push). Oracle: every (branch, head) any replica read shows is a head the remote has had for that branch; at a settle point the replicated branches have exactly the remote's current heads, in all-heads mode the branch set equals the remote's (deleted branches are gone); for every head shown at a settle point the rows / schemas / log AS OF that head on the replica equal the record taken on the primary when the commit was made, the replica's working set of that branch has the head's rows; closure walk over the replica finds every address. Non-trivial: at least 2 branches replicated and a force-push or deletion happened before a checked settle point."
 
 var c45Assumptions = []string{
 	"part (c) (two-server cluster, standby, role transitions) is out of scope of this check",
@@ -195,6 +195,23 @@ func c45LocalRefs(se *vsql.Session) (map[string]string, error) {
 	return out, nil
 }
 
+// c45Wide draws the doc (TEXT) and js (JSON) cells of a row: NULL / small in 1 of 3 rows, otherwise a value
+// from the size classes around the inline / out-of-line threshold (see gcBigSize).
+func c45Wide(rt *rapid.T, label string, uniq int, seen map[string]bool) string {
+	if rapid.IntRange(0, 2).Draw(rt, label+"_wide") == 0 {
+		return "'small', NULL"
+	}
+	n, cl := gcBigSize(rt, label+"_doc")
+	seen["doc:"+cl] = true
+	js := "NULL"
+	if rapid.Bool().Draw(rt, label+"_js") {
+		m, cl := gcBigSize(rt, label+"_js")
+		seen["js:"+cl] = true
+		js = fmt.Sprintf("JSON_OBJECT('n', %d, 'k', '%s')", uniq, gcBigString(uniq*4+3, m))
+	}
+	return "'" + gcBigString(uniq*4+1, n) + "', " + js
+}
+
 func c45ShowMap(m map[string]string) string {
 	var ks []string
 	for k := range m {
@@ -295,6 +312,7 @@ func c45PushCase(rt *rapid.T, env *c45Env, rec *vh.Recorder, async bool) {
 	var opsDesc []string
 	classes := map[string]bool{}
 	awaySteps := 0
+	wide := map[string]bool{}
 	everAway, awaySince := false, -1
 	var lastRemote map[string]string // remote refs as of the last successful comparison (nil = unknown)
 
@@ -429,8 +447,8 @@ func c45PushCase(rt *rapid.T, env *c45Env, rec *vh.Recorder, async bool) {
 		}
 		log = append(log, "[p] "+q)
 	}
-	run("CREATE TABLE t (pk INT PRIMARY KEY, br VARCHAR(20), v INT)", true)
-	run("INSERT INTO t VALUES (1, 'init', 1), (2, 'init', 2)", true)
+	run("CREATE TABLE t (pk INT PRIMARY KEY, br VARCHAR(20), v INT, doc TEXT, js JSON)", true)
+	run("INSERT INTO t VALUES (1, 'init', 1, 'small', NULL), (2, 'init', 2, '"+gcBigString(2, 5000)+"', NULL)", true)
 	run("CALL dolt_commit('-Am', 'init')", false)
 	branches := []string{"main"}
 	depth := map[string]int{"main": 1}
@@ -457,13 +475,13 @@ func c45PushCase(rt *rapid.T, env *c45Env, rec *vh.Recorder, async bool) {
 		case "commit":
 			must("CALL dolt_checkout('" + br + "')")
 			nextPK++
-			run(fmt.Sprintf("INSERT INTO t VALUES (%d, '%s', %d)", 100+nextPK, br, nextPK), true)
+			run(fmt.Sprintf("INSERT INTO t VALUES (%d, '%s', %d, %s)", 100+nextPK, br, nextPK, c45Wide(rt, lbl, 100+nextPK, wide)), true)
 			run(fmt.Sprintf("CALL dolt_commit('-am', 'c%d on %s')", nextPK, br), false)
 			depth[br]++
 		case "ws_only":
 			must("CALL dolt_checkout('" + br + "')")
 			nextPK++
-			run(fmt.Sprintf("INSERT INTO t VALUES (%d, 'uncommitted', %d)", 100+nextPK, nextPK), true)
+			run(fmt.Sprintf("INSERT INTO t VALUES (%d, 'uncommitted', %d, %s)", 100+nextPK, nextPK, c45Wide(rt, lbl, 100+nextPK, wide)), true)
 			must("CALL dolt_reset('--hard')")
 		case "new_branch":
 			if len(branches) >= 3 {
@@ -581,6 +599,9 @@ func c45PushCase(rt *rapid.T, env *c45Env, rec *vh.Recorder, async bool) {
 	if awaySteps > 0 {
 		cl = append(cl, "moved_refs_while_away")
 	}
+	for k := range wide {
+		cl = append(cl, "wide:"+k)
+	}
 	nontrivial := nBranchesMoved >= 2 && (classes["deletion"] || classes["non_ff_move"]) && awaySteps > 0
 	rec.Case(fmt.Sprintf("async=%v ops=[%s]", async, strings.Join(opsDesc, " ")), nontrivial, cl...)
 }
@@ -616,6 +637,7 @@ func c45ReplicaCase(rt *rapid.T, env *c45Env, rec *vh.Recorder) {
 		}
 	}
 	record := map[string][]string{}
+	wide := map[string]bool{}
 	history := map[string]map[string]bool{}
 	current := map[string]string{} // remote's current branch heads
 	noteRemote := func(when string) {
@@ -651,12 +673,12 @@ func c45ReplicaCase(rt *rapid.T, env *c45Env, rec *vh.Recorder) {
 	commitOn := func(b string) {
 		px("CALL dolt_checkout('" + b + "')")
 		nextPK++
-		px(fmt.Sprintf("INSERT INTO t VALUES (%d, '%s', %d)", 100+nextPK, b, nextPK))
+		px(fmt.Sprintf("INSERT INTO t VALUES (%d, '%s', %d, %s)", 100+nextPK, b, nextPK, c45Wide(rt, fmt.Sprintf("commit%d", nextPK), 100+nextPK, wide)))
 		px(fmt.Sprintf("CALL dolt_commit('-am', 'c%d on %s')", nextPK, b))
 		remember(b)
 	}
-	px("CREATE TABLE t (pk INT PRIMARY KEY, br VARCHAR(20), v INT)")
-	px("INSERT INTO t VALUES (1, 'init', 1), (2, 'init', 2)")
+	px("CREATE TABLE t (pk INT PRIMARY KEY, br VARCHAR(20), v INT, doc TEXT, js JSON)")
+	px("INSERT INTO t VALUES (1, 'init', 1, 'small', NULL), (2, 'init', 2, '" + gcBigString(2, 5000) + "', NULL)")
 	px("CALL dolt_commit('-Am', 'init')")
 	remember("main")
 	commitOn("main")
@@ -874,6 +896,9 @@ func c45ReplicaCase(rt *rapid.T, env *c45Env, rec *vh.Recorder) {
 	cl := []string{"mode=" + mode, fmt.Sprintf("settles=%d", min(settles, 5))}
 	for k := range special {
 		cl = append(cl, k)
+	}
+	for k := range wide {
+		cl = append(cl, "wide:"+k)
 	}
 	sort.Strings(cl)
 	rec.Case(fmt.Sprintf("mode=%s ops=[%s]", mode, strings.Join(opsDesc, " ")), replicated >= 2 && specialBeforeSettle, cl...)
